@@ -1,19 +1,77 @@
 from vlib import H
 PROPERTY = 'C30'
 LEVEL = 'model_checking'
-CLAIM = ('draft')
-SW = ['default', 'cvc5int', 'z3', 'kissat']
+CLAIM = ('Real inline kernels of util/feefrac.h (FeeFrac::Mul/MulFallback/Div/DivFallback/EvaluateFeeDown/Up, ByRatio, ByRatioNegSize) and policy/feerate.{h,cpp} '
+         '(CFeeRate constructors, comparison, GetFee) executed symbolically against 128-bit oracles that use no division (q = floor(n/d) <=> q*d <= n < q*d+d). '
+         'Two query families, because symbolic x symbolic 64/96-bit products and quotients are beyond every installed back end when code and oracle have different structure: '
+         '(F) every operand symbolic at full width: MulFallback = a*b as a 96-bit value (oracle: distributive law over the exact 32-bit halves of a); pair<int64,uint32> order = integer order; '
+         'EvaluateFeeDown on the fast path (0 <= fee < 2^33, all sizes, all at_size) = floor(fee*at/size) by the plain 128-bit oracle; EvaluateFee outside the fast range = Div(Mul(fee,at),size,dir); '
+         'Div = truncated 128-bit quotient corrected in the requested direction; ByRatio/ByRatioNegSize operators = sign of the 128-bit cross product difference, ties by larger size, empty last. '
+         '(L) divisor/multiplier from a concrete list, everything else symbolic at full width, plain 128-bit product oracle: Mul/MulFallback (multiplier list), Div/DivFallback for all 96-bit numerators whose quotient fits int64 '
+         '(divisor list, includes UB-freedom), EvaluateFeeDown/Up for all fees and all at_size (size list), CFeeRate::GetFee = ceil(rate*vbytes) for non-negative rates and the -1 rule for negative rates '
+         '(sat/kvB rates, i.e. size 1000, and listed sizes), CFeeRate comparisons (size pairs), ByRatioNegSize consistency with == (equal listed sizes). '
+         'CompareChunks = definition of feerate-diagram comparison on concrete chunk-size tuples with symbolic 40-bit fees (harness shared with C26, which runs more shapes). '
+         'NOT covered: Div/DivFallback/EvaluateFeeUp correctness against the multiplication oracle for divisors outside the lists (only the decomposition results of family F).')
 SAT = ['default', 'kissat', 'cadical']
+INT = ['cvc5int', 'cvc5int-di', 'cvc5int-bw']      # three configurations of cvc5 --solve-bv-as-int: they fail on different queries
+MIX = ['cvc5int', 'cvc5int-bw', 'kissat', 'default']
+FN_FF = ['FeeFrac::Mul', 'FeeFrac::MulFallback', 'FeeFrac::Div', 'FeeFrac::DivFallback', 'FeeFrac::EvaluateFee<true/false> (EvaluateFeeDown/Up)', 'CeilDiv (util/overflow.h)']
+FN_CMP = ['ByRatio<FeeFrac> operators ==,<=>,<,>,<=,>=', 'ByRatioNegSize<FeeFrac> operators ==,<=>', 'CFeeRate::CFeeRate(CAmount,int32_t)', 'CFeeRate::CFeeRate(I)', 'CFeeRate operator<=>/==', 'CFeeRate::GetFee', 'CFeeRate::GetFeePerVSize']
+NOUB = 'h_div_round / h_evalfee_slow are compiled without UBSan traps (-O2, so that the compiler identifies the oracle quotient with the one in the code); overflow-freedom of Div is part of div_list'
+ASSUME_FIT = 'documented requirement of Div/EvaluateFee/GetFee: the exactly rounded result fits in int64_t (stated with 128-bit products, no division)'
+INV = 'FeeFrac invariant (feefrac.h): size >= 0 and size == 0 only with fee == 0'
+B_Q = (1000, -1, 0x7fffffff, -0x80000000)
+B_T = B_Q + (1, 2, 3, -3, 10, 255, 256, 65535, 65536, 65537, -65537, 1000000, 4000000, 0x55555555, -0x2aaaaaab, 0x40000000)
+D_Q = (1000, 3, 0x7fffffff)
+D_T = D_Q + (1, 2, 7, 10, 255, 256, 65535, 65536, 65537, 100000, 1000000, 4000000, 0x40000000, 0x55555555)
+S_Q = (1000,)
+S_T = S_Q + (3, 1, 2, 250, 65537, 4000000, 0x7fffffff)
+
+
+def ev(sizes):
+    v = []
+    for dc in sizes:
+        for c in (0, 1, 2):
+            for up in (0, 1):
+                d = {'FEE_CLASS': c, 'DC': dc}
+                if up: d['ROUND_UP'] = 1
+                if c == 0: d['FUSED_RANGE'] = 1
+                v.append(d)
+    return v
+
+
+def gf(sizes):
+    v = [dict({'SIZE': 1000, 'PER_KVB': 1, 'FEE_CLASS': c}, **({'FUSED_RANGE': 1} if c == 0 else {})) for c in (0, 1, 2)]
+    for sz in sizes:
+        v += [dict({'SIZE': sz, 'FEE_CLASS': c}, **({'FUSED_RANGE': 1} if c == 0 else {})) for c in (0, 1, 2)]
+    return v + [{'SIZE': 0, 'FEE_CLASS': 1}, {'SIZE': -5, 'FEE_CLASS': 2}]
+
+
+CC = '_Z13CompareChunksSt4spanIK7FeeFracLm18446744073709551615EES2_'
 HARNESSES = [
-    H('mul_full', 'feefrac.cpp', 'h_mul', backends=SAT, unwind=1, timeout=300),
-    H('mul_list', 'feefrac.cpp', 'h_mul', variants=[{'BC': b} for b in (1000, -1000, 0x7fffffff)], backends=SW, unwind=1, timeout=300),
-    H('pairorder', 'feefrac.cpp', 'h_pairorder', backends=['default', 'z3'], unwind=1, timeout=300),
-    H('div_list', 'feefrac.cpp', 'h_div', variants=[{'WHICH': w, 'DC': d} for w in (0, 1) for d in (1000, 0x7fffffff)], backends=SW, unwind=1, timeout=300),
-    H('div_round', 'feefrac.cpp', 'h_div_round', opt='-O2', backends=SAT, unwind=1, timeout=300),
-    H('evalfee_list', 'feefrac.cpp', 'h_evalfee', variants=[{'FEE_CLASS': 0, 'DC': 1000, 'FUSED_RANGE': 1}, {'FEE_CLASS': 0, 'ROUND_UP': 1, 'DC': 1000, 'FUSED_RANGE': 1}, {'FEE_CLASS': 1, 'DC': 1000}, {'FEE_CLASS': 2, 'DC': 1000}, {'FEE_CLASS': 1, 'ROUND_UP': 1, 'DC': 1000}, {'FEE_CLASS': 2, 'ROUND_UP': 1, 'DC': 1000}], backends=SW, witness_backends=['default'], unwind=1, timeout=300),
-    H('evalfee_slow', 'feefrac.cpp', 'h_evalfee_slow', variants=[{}, {'ROUND_UP': 1}], opt='-O2', backends=SAT, unwind=1, timeout=300),
-    H('evalfee_fast', 'feefrac.cpp', 'h_evalfee_fast', variants=[{}, {'ROUND_UP': 1}], backends=SAT, unwind=1, timeout=300),
-    H('compare', 'feerate.cpp', 'h_compare', link=['policy/feerate.cpp'], variants=[{}, {'SZ': 0}, {'SZ': 1}, {'SZ': 1000}, {'SZ': 0x7fffffff}], backends=SW, unwind=1, timeout=300),
-    H('compare_feerate', 'feerate.cpp', 'h_compare_feerate', link=['policy/feerate.cpp'], variants=[{'PER_KVB': 1}, {'SA': 250, 'SB': 1000}, {'SA': 1, 'SB': 0x7fffffff}, {'SA': 4000000, 'SB': 3}], backends=SW, unwind=1, timeout=300),
-    H('getfee', 'feerate.cpp', 'h_getfee', link=['policy/feerate.cpp'], variants=[{'SIZE': 1000, 'PER_KVB': 1, 'FEE_CLASS': 0, 'FUSED_RANGE': 1}] + [{'SIZE': 1000, 'PER_KVB': 1, 'FEE_CLASS': c} for c in (1, 2)], backends=SW, witness_backends=['default'], unwind=1, timeout=300),
+    H('mul_full', 'feefrac.cpp', 'h_mul', backends=SAT, unwind=1, timeout=300, functions=FN_FF,
+      bounds='all int64 a, all int32 b (2^96 inputs); oracle a*b = ah*b*2^32 + al*b with exact 64-bit partial products'),
+    H('mul_list', 'feefrac.cpp', 'h_mul', variants=[{'BC': b} for b in B_Q], tvariants=[{'BC': b} for b in B_T], backends=MIX, unwind=1, timeout=300, diff_runs=12,
+      bounds='all int64 a; b in %s (thorough: %s); plain 128-bit product oracle for Mul and MulFallback' % (list(B_Q), list(B_T))),
+    H('pairorder', 'feefrac.cpp', 'h_pairorder', backends=['default', 'kissat'], unwind=1, timeout=300, bounds='all pairs of (int64,uint32) pairs'),
+    H('div_list', 'feefrac.cpp', 'h_div', variants=[{'WHICH': w, 'DC': d} for w in (0, 1) for d in D_Q], tvariants=[{'WHICH': w, 'DC': d} for w in (0, 1) for d in D_T],
+      backends=INT, witness_backends=['default'], unwind=1, timeout=300, diff_runs=12, assumptions=[ASSUME_FIT],
+      bounds='Div (WHICH=1) and DivFallback (WHICH=0): all 96-bit numerators (int64 hi, uint32 lo) with representable quotient, both rounding directions, divisor in %s (thorough: %s)' % (list(D_Q), list(D_T))),
+    H('div_round', 'feefrac.cpp', 'h_div_round', opt='-O2', ubsan=False, backends=SAT, unwind=1, timeout=300, stubs=[NOUB], assumptions=[ASSUME_FIT],
+      bounds='all 96-bit numerators, all divisors 1..2^31-1, both directions; oracle = C++ truncating 128-bit quotient/remainder plus textbook correction'),
+    H('evalfee_list', 'feefrac.cpp', 'h_evalfee', variants=ev(S_Q), tvariants=ev(S_T), backends=INT, witness_backends=['default'], unwind=1, timeout=300, diff_runs=12, assumptions=[ASSUME_FIT],
+      bounds='EvaluateFeeDown/Up: all int64 fees (three classes: [0,2^33), >= 2^33, < 0), all at_size 0..2^31-1, size in %s (thorough: %s)' % (list(S_Q), list(S_T))),
+    H('evalfee_slow', 'feefrac.cpp', 'h_evalfee_slow', variants=[{}, {'ROUND_UP': 1}], opt='-O2', ubsan=False, backends=SAT, unwind=1, timeout=300, assumptions=[ASSUME_FIT],
+      bounds='all fees outside [0,2^33), all sizes 1..2^31-1, all at_size 0..2^31-1: EvaluateFee == Div(Mul(fee,at_size),size,dir)'),
+    H('evalfee_fast', 'feefrac.cpp', 'h_evalfee_fast', variants=[{}], backends=['kissat', 'cadical'], unwind=1, timeout=900, tier='thorough',
+      bounds='EvaluateFeeDown: all fees in [0,2^33), all sizes 1..2^31-1, all at_size 0..2^31-1, plain 128-bit oracle (EvaluateFeeUp with symbolic size: no back end finishes; see evalfee_list)'),
+    H('compare', 'feerate.cpp', 'h_compare', variants=[{}, {'SZ': 0}, {'SZ': 1}, {'SZ': 1000}, {'SZ': 0x7fffffff}], backends=MIX, unwind=1, timeout=300, functions=FN_CMP, assumptions=[INV],
+      bounds='all (int64 fee, int32 size >= 0) pairs satisfying the invariant; consistency of ByRatioNegSize <=> with == for equal sizes in {0,1,1000,2^31-1}'),
+    H('compare_feerate', 'feerate.cpp', 'h_compare_feerate', variants=[{'PER_KVB': 1}, {'SA': 250, 'SB': 1000}, {'SA': 1, 'SB': 0x7fffffff}, {'SA': 4000000, 'SB': 3}], backends=MIX, unwind=1, timeout=300, diff_runs=12,
+      bounds='all pairs of int64 fees; sizes (1000,1000) via the sat/kvB constructor and (250,1000), (1,2^31-1), (4000000,3)'),
+    H('getfee', 'feerate.cpp', 'h_getfee', variants=gf(()), tvariants=gf((1, 3, 250, 4000000, 0x7fffffff)), backends=INT, witness_backends=['default'], unwind=1, timeout=300, diff_runs=12, assumptions=[ASSUME_FIT],
+      bounds='all int64 rates (three classes), all vbytes 0..2^31-1; rate per 1000 vB (sat/kvB constructor) and CFeeRate(fee,size) for size in {1,3,250,4000000,2^31-1} (thorough tier only), size <= 0 gives the zero rate'),
+    H('comparechunks', 'harness/C26/chunks.cpp', 'h_comparechunks', link=['util/feefrac.cpp'], backends=['kissat', 'default', 'cadical'], unwind=5, unwindset=lambda v: '%s.1:%d' % (CC, v['N0'] + v['N1'] + 1), timeout=400, diff_runs=12,
+      variants=[{'N0': 3, 'N1': 3, 'SZ0': '2,2,2', 'SZ1': '1,3,1', 'FB': 40, 'RANGE_INPUTS': 1}], functions=['CompareChunks (util/feefrac.cpp)'],
+      bounds='chunk sizes (2,2,2) vs (1,3,1), fees symbolic in [-2^39,2^39); more shapes under C26'),
 ]
